@@ -96,6 +96,13 @@ def _dim_branches(fn, where):
     for k in (1, 2, 3):
         if k not in res:
             raise TranslateError("%s: no closed-form branch for dim == %d" % (where, k))
+    if sorted(res) != [1, 2, 3]:
+        raise TranslateError("%s: closed-form branches for dims %s (expected exactly 1, 2, 3)" % (where, sorted(res)))
+    # every other dimension must be delegated to numpy.linalg, unchanged
+    name = {"Det": "det", "Inv": "inv"}[where]
+    tail = [ast.unparse(s) for s in cur.orelse]
+    if tail != ["%s = np.linalg.%s(mat)" % (name, name)]:
+        raise TranslateError("%s: dims > 3 are not delegated to np.linalg.%s(mat): %r" % (where, name, tail))
     return res
 
 
@@ -217,6 +224,10 @@ def emit_det_inv(tr):
         s += ("Definition gen_inv%s (n : nat) (m : nat -> nat -> %s) (i j : nat) : %s :=\n"
               "  match n with 1 => gen_inv1%s m i j | 2 => gen_inv2%s m i j | 3 => gen_inv3%s m i j | _ => %s end.\n"
               % (suf, ty, ty, suf, suf, suf, zero))
+    s += ("(* dims 1, 2, 3 are the closed forms above; every other dimension is `np.linalg.det(mat)` /\n"
+          "   `np.linalg.inv(mat)` verbatim (checked by the translator), i.e. trusted numpy *)\n"
+          "Definition gen_closed_form_dims : list nat := [1; 2; 3].\n"
+          "Definition gen_other_dims_delegated_to_numpy : bool := true.\n")
     return s
 
 
